@@ -753,8 +753,11 @@ def pncbo(op, ifile1, ifile2, coordkeys=None, verbose=0):
             unit1 = getattr(in1var, 'units', 'unknown')
             unit2 = getattr(in2var, 'units', 'unknown')
             propd['units'] = '(%s) %s (%s)' % (unit1, op, unit2)
-            outval = np.ma.masked_invalid(
-                eval('in1var[...] %s in2var[...]' % op).view(np.ndarray))
+            outval = eval('in1var[...] %s in2var[...]' % op)
+            outmask = np.ma.getmaskarray(outval)
+            outval = np.ma.getdata(outval).view(np.ndarray)
+            outval = np.ma.masked_array(
+                outval, mask=outmask | ~np.isfinite(outval))
             outvar = tmpfile.createVariable(
                 k, in1var.dtype.char, in1var.dimensions, fill_value=-999,
                 values=outval)
